@@ -239,6 +239,24 @@ fn gen_corpus_plain(seed: u64, tier: Tier) -> Scenario {
 fn gen_corpus_mut(seed: u64, tier: Tier) -> Scenario {
     gen::gen_corpus(seed, &gen::CorpusCfg { max_docs: docs(tier), with_vec: true, with_images: false, mutate: true })
 }
+/// C28: as gen_corpus_mut; one seed in three parks the log's write head a few bytes before the end
+/// of its region with a record still pending, so that the record the commit's own index flush
+/// appends does not fit and the log region grows in the middle of that commit.
+fn gen_corpus_steer(seed: u64, tier: Tier) -> Scenario {
+    let mut s = gen_corpus_mut(seed, tier);
+    let mut r = Rng::new(seed, "corpus-steer");
+    if r.chance(1, 3) {
+        if let Some(chk) = s.ops.iter().position(|o| matches!(o, Op::Check)) {
+            if let Some(c) = s.ops[..chk].iter().rposition(|o| matches!(o, Op::Commit)) {
+                let ins = vec![Op::Commit, Op::PutSteer { gap: r.range(24_000, 36_000), seed: r.next() }, Op::Commit, Op::PutSteer { gap: *r.pickv(&[0u64, 8, 40, 48, 60, 200, 400]), seed: r.next() }];
+                for (k, o) in ins.into_iter().enumerate() {
+                    s.ops.insert(c + k, o);
+                }
+            }
+        }
+    }
+    s
+}
 fn gen_corpus_vec(seed: u64, tier: Tier) -> Scenario {
     gen::gen_corpus(seed, &gen::CorpusCfg { max_docs: docs(tier), with_vec: true, with_images: false, mutate: true })
 }
@@ -254,7 +272,28 @@ fn gen_vacuum(seed: u64, tier: Tier) -> Scenario {
     let mut s = gen::gen_history(seed, if tier == Tier::Quick { 20 } else { 36 }, false, true);
     let mut r = Rng::new(seed, "vacuum-tail");
     let tail = s.ops.len().saturating_sub(6);
-    let mut ins: Vec<Op> = vec![Op::Commit];
+    // (the history is closed at `tail`: its last six operations are open/check/close on a
+    // writable and on a read-only handle)
+    let mut ins: Vec<Op> = vec![Op::Open];
+    // half of the histories are certain to hold embeddings when the compaction runs (same
+    // dimension as the history's own embedded puts, if it has any)
+    let mut rv = Rng::new(seed, "vacuum-vec");
+    if rv.chance(1, 2) {
+        let d = s.ops.iter().find_map(|o| if let Op::Put(p) = o { p.emb.as_ref().map(|e| e.len()) } else { None }).unwrap_or(rv.range(2, 8) as usize);
+        for k in 0..2 {
+            let mut p = PutSpec { pay: Some(Pay::new(if k == 0 { PK::Bin } else { PK::Text }, rv.range(30, 700) as usize, rv.next())), ts: Some(50 + k), ..Default::default() };
+            p.uri = Some(format!("mv2://vec-tail/{k}"));
+            p.emb = Some((0..d).map(|_| rv.f32() * 2.0 - 1.0).collect());
+            ins.push(Op::Put(p));
+        }
+        if rv.chance(1, 2) {
+            // a payload-less update of the older of the two: its successor owns bytes that lie
+            // before those of a lower-numbered active frame when the compaction walks the table
+            ins.push(Op::Commit);
+            ins.push(Op::UpdateUri { uri: "mv2://vec-tail/0".into(), spec: PutSpec { title: Some("retitled before vacuum".into()), ..Default::default() } });
+        }
+    }
+    ins.push(Op::Commit);
     if r.chance(1, 2) {
         ins.push(Op::Vacuum);
         ins.push(Op::Check);
@@ -262,12 +301,14 @@ fn gen_vacuum(seed: u64, tier: Tier) -> Scenario {
         ins.push(Op::Verify { deep: r.chance(1, 2) });
         ins.push(Op::Open);
         ins.push(Op::Check);
+        ins.push(Op::Close);
     } else {
         ins.push(Op::Close);
         ins.push(Op::Doctor(DoctorSpec { time: r.chance(1, 2), lex: r.chance(1, 2), vec: false, vacuum: true, dry_run: false }));
         ins.push(Op::Verify { deep: true });
         ins.push(Op::Open);
         ins.push(Op::Check);
+        ins.push(Op::Close);
     }
     for (k, o) in ins.into_iter().enumerate() {
         s.ops.insert(tail + k, o);
@@ -399,7 +440,7 @@ pub fn all() -> Vec<CheckDef> {
         corpus("C14", gen_corpus_vec, &["vec_membership_checks", "vec_searches_checked"]),
         corpus("C15", gen_corpus_img, &["timelines"]),
         corpus("C16", gen_corpus_plain, &["pagination_multi_page"]),
-        corpus("C28", gen_corpus_mut, &["differential_compares"]),
+        corpus("C28", gen_corpus_steer, &["differential_compares"]),
         CheckDef { id: "C18", level: "exploration", quick_s: 40, thorough_s: 600, gen: |s, _t| gen::gen_readonly(s), run: run_history, rule: RULE_RO, assumptions: &["write-class syscalls are observed at the process's libc boundary (write/pwrite/ftruncate/rename/unlink/copy_file_range on the memory's directory); mmap is read-only in this code base"], want_probes: &["ro_opens", "ro_byte_snapshots", "abandon", "searches"] },
         CheckDef { id: "C19", level: "exploration", quick_s: 40, thorough_s: 600, gen: |s, t| gen::gen_single_file(s, if t == Tier::Quick { 20 } else { 40 }), run: run_history, rule: RULE_SF, assumptions: &["injected errors are returned at the libc boundary for calls on the memory's directory only", "reads through mmap cannot be faulted"], want_probes: &["dir_listings", "sidecar_refusals", "op_errors"] },
         CheckDef { id: "C24", level: "exploration", quick_s: 40, thorough_s: 600, gen: |s, _t| gen::gen_tickets(s, true), run: run_history, rule: RULE_TK, assumptions: &["capacity is compared with the end offset of frame payloads as reported by the public Frame fields"], want_probes: &["capacity_checks", "tickets_accepted", "rejected_calls_monitored"] },
@@ -410,7 +451,9 @@ pub fn all() -> Vec<CheckDef> {
             level: "exploration",
             quick_s: 45,
             thorough_s: 600,
-            gen: |s, t| gen::gen_history(s, if t == Tier::Quick { 14 } else { 30 }, false, true),
+            // one seed in three is a history that is certain to compact (vacuum directly or through
+            // doctor) with several live payloads, embeddings and a payload-less update
+            gen: |s, t| if s % 3 == 0 { gen_vacuum(s, t) } else { gen::gen_history(s, if t == Tier::Quick { 14 } else { 30 }, false, true) },
             run: crate::determinism::run_determinism,
             rule: "a seeded history with explicit timestamps (puts of all payload classes, updates, deletes, commits, vacuum, doctor, clean restarts) is executed four times, each in a fresh process on a fresh path: base environment; different clock (origin, skew, jumps); different entropy (segment UUIDs, staging-file names, hash seeds); different path plus injected short writes/short reads/EINTR; call outcomes, the logical observation (frames, contents, metadata, timeline, searches, vector search, stats) and the file bytes of each variant are compared with the base run; a run is non-trivial iff >=1 mutation was acknowledged and >=1 variant was compared; distinct = (op-kind buckets, probes) classes",
             assumptions: &["Tantivy's worker threads are real threads that the simulator does not schedule; their entropy is keyed by thread lineage", "differences are classified by the file region they fall in (header fields, WAL ring, payloads, index region, TOC, footer)"],
